@@ -661,17 +661,24 @@ def eval_hist(env: Env, spec: str, st, soft, totality_only, base, base_vecs, tp,
             cat_x, cat_y = env.fresh_cat(), env.fresh_cat()
             old_format = getf()
             try:
-                setf(UNKNOWN_FORMAT)
-                # no annotation can be named: whatever this gives (the statement does not speak about name formats)
-                k, v = env.build(spec, cat_x)
-                ops.append((f"array_name_format={UNKNOWN_FORMAT!r}: never-used X[Duck, spec]", k if k != "other" else "refused-other", v, False))
-                setf("array")
-                k, v = env.build(spec, cat_y)
+                try:
+                    setf(UNKNOWN_FORMAT)
+                except Exception:  # noqa: BLE001 -- a setter that validates its argument: nothing to do
+                    pass
+                else:
+                    # no annotation can be named: whatever this gives (the statement does not speak about name formats)
+                    k, v = env.build(spec, cat_x)
+                    ops.append((f"array_name_format={UNKNOWN_FORMAT!r}: never-used X[Duck, spec]", k if k != "other" else "refused-other", v, False))
+                try:
+                    setf("array")
+                except Exception:  # noqa: BLE001
+                    pass
+                else:
+                    extra_outs = [("while array_name_format='array': never-used Y[Duck, spec]", *env.build(spec, cat_y))]
             finally:
                 setf(old_format)
             plan = [(L_HIST_PLAIN, Float, Duck), ("X[Duck, spec] (refused under the unknown name format)", cat_x, Duck), ("Y[Duck, spec] (first built under array_name_format='array')", cat_y, Duck), (L_HIST_FRESH, env.fresh_cat(), Duck)]
             vec = {"Y[Duck, spec] (first built under array_name_format='array')"}
-            extra_outs = [("while array_name_format='array': never-used Y[Duck, spec]", k, v)]
         elif scen == "illegal-relatives":
             if st != "ok" or totality_only:
                 continue
